@@ -83,7 +83,7 @@ METHODS = {
         "abs", "nunique", "value_counts", "mask", "where",
         "split", "strip", "lstrip", "rstrip", "format", "encode", "decode", "zfill", "upper", "lower", "startswith",
         "endswith", "find", "replace", "index", "as_posix", "is_integer", "as_integer_ratio", "bit_length",
-        "__repr__", "__str__", "debug", "info", "warning", "warn", "error", "dump", "item", "nonzero", "argsort", "searchsorted", "flatten"],
+        "__repr__", "__str__", "debug", "info", "warning", "warn", "error", "dump", "nonzero", "argsort", "searchsorted"],
     "shallow": [  # new container / lazy iterator over the receiver's elements; tolist of an object column keeps the cells
         "tolist", "to_list", "to_dict", "items", "keys", "values", "iterrows", "itertuples", "__new__",
         "agg", "aggregate", "apply", "first", "last", "unique", "flatten"],
@@ -92,8 +92,7 @@ METHODS = {
         "head", "tail", "take", "transpose", "groupby", "get", "item"],
     "mutate": [  # list / dict / set / DataFrame in-place methods
         "append", "extend", "insert", "pop", "remove", "clear", "sort", "reverse", "update", "setdefault", "add",
-        "discard", "popitem", "__setitem__", "__setattr__", "__delitem__", "insert_col", "fill", "put", "itemset", "resize",
-        "writelines", "write_io"],
+        "discard", "popitem", "__setitem__", "__setattr__", "__delitem__", "fill", "put", "itemset", "resize"],
 }
 # Binary operators whose result is always a new value that keeps no reference to its operands (numbers, arrays, frames;
 # set difference of hashable - immutable - elements).  `+ * | & ^` may build lists / tuples / sets: the result holds the operands.
@@ -101,8 +100,8 @@ FRESH_BINOPS = (ast.Sub, ast.Div, ast.FloorDiv, ast.Mod, ast.Pow, ast.LShift, as
 # Containers of immutable elements, by annotation of the attribute they are read from: a shallow copy of one is a full copy.
 IMMUTABLE_ELEMENT_ANNOTATIONS = ["List[str]", "List[int]", "List[float]", "list[str]", "list[int]", "list[float]",
                                  "Tuple[str]", "List[bool]", "List[bytes]"]
-# dtypes (first component of a `_props` declaration) whose cells are numbers
-NUMERIC_DTYPES = ["float", "int", "bool", "float64", "int64", "float32", "int32"]
+# dtypes (first component of a `_props` declaration) whose cells are numbers / strings
+NUMERIC_DTYPES = ["float", "int", "bool", "float64", "int64", "float32", "int32", "str"]
 # `x.copy()`: a data copy for pandas / numpy receivers (the receiver expression is recognisably a frame / array, or
 # deep=True is written), a SHALLOW copy (elements shared) otherwise.
 # Attributes that are views of their owner (loads) are the default; these attribute names denote immutable values:
@@ -315,7 +314,7 @@ class Index:
     def immutable_cells(self, attr):
         """x.<attr> is, for every class of the package declaring it, a column whose cells are immutable values"""
         kinds = self.prop_cells.get(attr)
-        return bool(kinds) and kinds == {"immutable"} and attr not in self.method_names
+        return bool(kinds) and kinds == {"immutable"}
 
     @staticmethod
     def _props_keys(v, cname):
